@@ -593,8 +593,8 @@ Proof.
   - simpl in Hnt. pose proof (IH x Hnt a1 (L ++ [l]) k Hp1 Hk1) as H1.
     destruct (exec_o fuel a1 (L ++ [l]) x) as [[a2 L2] r2]; destruct (exec_o fuel (erase a1) (L ++ [l]) x) as [[b2 L2'] r2'].
     destruct H1 as [(Hq & Hk2 & Hb & HL & Hr)|(Hq & Hr & Hpf)]; cbn [fst snd] in *.
-    + subst b2 L2' r2'. sfin Hq Hk2.
-    + subst r2. right. cbn [fst snd]. repeat split; auto.
+    + subst b2 L2' r2'. destruct r2 as [[| |t| |]| |]; try sfin Hq Hk2. destruct (Nat.eqb t l); sfin Hq Hk2.
+    + subst r2. right. destruct r2' as [[| |t| |]| |]; try destruct (Nat.eqb t l); cbn [fst snd]; repeat split; auto.
   - pose proof (eval_sync e a1 k Hp1 Hk1) as H1.
     destruct (eval a1 e) as [a2 r2]; destruct (eval (erase a1) e) as [b2 r2'].
     destruct H1 as [(Hq & Hk2 & Hb & Hr)|(Hq & Hr & Hpf)]; cbn [fst snd] in *.
